@@ -2127,8 +2127,16 @@ pick:
 		}
 		break;
 	case DISPATCH_OP_COMPLETE_RESUME:
+		// Completing the operation may drop its last reference, but
+		// _dispatch_stream_source() still needs it to create the source
+		_dispatch_retain(op);
 		_dispatch_stream_complete_operation(stream, op);
-		DISPATCH_FALLTHROUGH;
+		if (_dispatch_stream_operation_avail(stream)) {
+			stream->source_running = true;
+			dispatch_resume(_dispatch_stream_source(stream, op));
+		}
+		_dispatch_release(op);
+		break;
 	case DISPATCH_OP_RESUME:
 		if (_dispatch_stream_operation_avail(stream)) {
 			stream->source_running = true;
